@@ -52,6 +52,27 @@ func newScenario(w *world, out *c.Out, no int, self, minSelf, delegated int64) *
 	return s
 }
 
+// addValidator: one more validator (operator = a new account appended to users) with `self` ukava of its own
+func (s *seqSt) addValidator(no int, self int64) int {
+	op := s.newAccount()
+	s.users = append(s.users, op)
+	msg, err := stakingtypes.NewMsgCreateValidator(sdk.ValAddress(op), ed25519.GenPrivKeyFromSecret([]byte{byte(no), 78, byte(len(s.vals))}).PubKey(),
+		sdk.NewInt64Coin("ukava", self), stakingtypes.Description{Moniker: "directed-more"},
+		stakingtypes.NewCommissionRates(sdk.ZeroDec(), sdk.ZeroDec(), sdk.ZeroDec()), sdkmath.NewInt(1))
+	must(err)
+	_, err = stakingkeeper.NewMsgServerImpl(s.sk()).CreateValidator(sdk.WrapSDKContext(s.ctx), msg)
+	must(err)
+	s.vals = append(s.vals, sdk.ValAddress(op))
+	s.opers = append(s.opers, op)
+	s.jailed = append(s.jailed, false)
+	s.endBlock(time.Second)
+	return len(s.vals) - 1
+}
+
+func (s *seqSt) supplyAt(v int) *big.Int {
+	return s.w.tApp.GetBankKeeper().GetSupply(s.ctx, s.denom(v)).Amount.BigInt()
+}
+
 func (s *seqSt) slashDirected(burn int64) {
 	if !s.slash(0, bi(burn)) {
 		panic("directed: slash failed")
@@ -136,5 +157,28 @@ func directed(w *world, out *c.Out) {
 		}
 		s.mintWith(2, 0, bi(1), true)
 	}
+	// X1: the coin of MsgBurnDerivative is not the derivative of the validator it names.  Validator A (slashed: its
+	// share is worth less) and validator B; user 0 holds bkava-A, user 1 holds bkava-B.  User 0 "burns" bkava-A naming B
+	// (the whole backing of B, one unit), user 1 the other way round, plus the malformed variants: all refused, nothing
+	// changes on any validator, and afterwards both holders redeem their whole position.
+	s = newScenario(w, out, 6, 50_000_000, 1, 50_000_000)
+	vb := s.addValidator(6, 60_000_000)
+	s.stakingMsg("delegate", 1, vb, -1, bi(40_000_000), true)
+	s.endBlock(time.Second)
+	s.slashDirected(7_000_000)
+	s.mintWith(0, 0, bi(10_000_000), true)
+	s.mintWith(1, vb, bi(10_000_000), true)
+	supA, supB := s.supplyAt(0), s.supplyAt(vb)
+	s.burnCoinAt(s.users[0], s.vals[vb], s.bkava(0, supB), "other-validator")
+	s.burnCoinAt(s.users[0], s.vals[vb], s.bkava(0, bi(1)), "other-validator")
+	s.burnCoinAt(s.users[1], s.vals[0], s.bkava(vb, bi(1)), "other-validator")
+	s.burnCoinAt(s.users[1], s.vals[0], s.bkava(vb, supB), "other-validator")
+	ghost := sdk.ValAddress(addrFrom(s.r))
+	s.burnCoinAt(s.users[0], ghost, s.bkava(0, bi(5)), "absent-validator")
+	s.burnCoinAt(s.users[0], s.vals[vb], sdk.NewCoin(derivDenom(ghost), sdkmath.NewInt(5)), "absent-denom")
+	s.burnCoinAt(s.users[0], s.vals[vb], sdk.NewCoin(liquidtypes.DefaultDerivativeDenom, sdkmath.NewInt(5)), "bare-denom")
+	s.burnCoinAt(s.users[0], s.vals[vb], sdk.NewInt64Coin("ukava", 5), "not-derivative")
+	s.burnWith(1, vb, supB)
+	s.burnWith(0, 0, supA)
 	out.Note("directed:scenarios")
 }
